@@ -17,7 +17,8 @@ from ..common import Ctx, Scheme
 GENERATOR_NAMES = ["dt", "t", "time", "states", "parameters", "values", "shape", "missing_variables", "numpy", "len", "name", "state",
                    "parameter", "monitor", "missing", "key", "value", "rhs", "monitor_values", "init_state_values", "state_index",
                    "parameter_index", "monitor_index", "explicit_euler", "generalized_rush_larsen", "jax", "math"]
-C_NAMES = ["true_value", "falsetto", "untrue", "values", "states", "parameters", "t", "dt", "fabs", "pow", "exp2", "index", "y0", "y1", "j0", "jn",
+BOOL_WORD_NAMES = ["true_value", "falsetto", "untrue", "true_gain", "k_false", "x_true", "false_k", "truex", "nfalse"]
+C_NAMES = BOOL_WORD_NAMES + ["values", "states", "parameters", "t", "dt", "fabs", "pow", "exp2", "index", "y0", "y1", "j0", "jn",
            "gamma", "double", "int", "const", "static", "float", "char", "return", "NUM_STATES", "strcmp", "name", "M_PI", "INFINITY", "NAN", "main"]
 SYMPY_NAMES = ["E", "I", "S", "N", "O", "Q", "oo", "zoo", "nan", "beta", "gamma", "zeta", "lambda_", "Symbol", "Function", "re", "im", "sign", "Max", "Min"]
 NEUTRAL = ["V", "m_gate", "g_Na", "Cai", "k1", "alpha_m", "x", "y2", "Ito"]
@@ -37,10 +38,10 @@ def template(ident: str, role: str, usage: str = "used"):
                 f"dv_dt = i_b - g*v\ndw_dt = k*(v - w)\n")
     if role == "state":
         return (f"states({ident}=0.7, w=1.3)\nparameters(g=0.6, k=2.5)\ni_a = g*{ident} + k\ni_b = i_a*w - {ident}*{ident}\n"
-                f"d{ident}_dt = i_b - g*{ident}\ndw_dt = k*({ident} - w)\n")
+                f"d{ident}_dt = i_b - g*{ident}\ndw_dt = k*({ident} - w) + Conditional(Gt({ident}, 1), {ident}, 0.5)\n")
     if role == "parameter":
         return (f"states(v=0.7, w=1.3)\nparameters({ident}=0.6, k=2.5)\ni_a = {ident}*v + k\ni_b = i_a*w - v*{ident}\n"
-                f"dv_dt = i_b - {ident}*v\ndw_dt = k*(v - w) + {ident}\n")
+                f"dv_dt = i_b - {ident}*v\ndw_dt = k*(v - w) + {ident} + 2*Conditional(Lt({ident}, 0.5), {ident}, w)\n")
     return (f"states(v=0.7, w=1.3)\nparameters(g=0.6, k=2.5)\n{ident} = g*v + k\ni_b = {ident}*w - v*v\n"
             f"dv_dt = i_b - g*{ident}\ndw_dt = k*(v - w) + Conditional(Gt({ident}, 1), {ident}, 0.5)\n")
 
@@ -256,6 +257,12 @@ def c19_run(ctx: Ctx):
         cases.append({"ident": i, "role": r, "backend": "jax"})
     for i, r in allc[:n_c]:
         cases.append({"ident": i, "role": r, "backend": "c"})
+    # identifiers that contain the words the C printer substitutes (`true` / `false` inside a `?:`): every one, in a
+    # rotating role, and as a prefix and a suffix of the name
+    for k, i in enumerate(BOOL_WORD_NAMES):
+        r = roles[(k + ctx.seed) % 3]
+        if not any(cs["ident"] == i and cs["role"] == r and cs["backend"] == "c" for cs in cases):
+            cases.append({"ident": i, "role": r, "backend": "c"})
     # the names every generated function uses for itself, declared but never read, with and without
     # unused-variable removal (a removed unpacking must not be a reason to skip the name check)
     core = ["dt", "t", "time", "states", "parameters", "values", "shape", "missing_variables", "numpy"]
